@@ -29,7 +29,6 @@
 """
 """
 from pyrates.frontend import CircuitTemplate, NodeTemplate, EdgeTemplate, OperatorTemplate
-from pyrates.backend.parser import get_unique_label
 from typing import Union
 
 __author__ = "Daniel Rose, Richard Gast"
@@ -108,9 +107,11 @@ def from_edge(edge: EdgeTemplate, return_dict: dict, base: str = 'EdgeTemplate')
 
 def add_to_dict(template, template_dict: dict, full_dict: dict):
 
+    # templates that share a name but differ in content get keys of their own (<name>_num1, <name>_num2, ...)
     temp_key = template.name
-    existing_labels = {key: 0 for key in full_dict.keys()}
-    if temp_key in full_dict and full_dict[temp_key] != template_dict:
-        temp_key, _ = get_unique_label(temp_key, existing_labels)
+    counter = 0
+    while temp_key in full_dict and full_dict[temp_key] != template_dict:
+        counter += 1
+        temp_key = f"{template.name}_num{counter}"
     full_dict[temp_key] = template_dict
     return temp_key
